@@ -102,6 +102,32 @@ Section KRun.
           exists (ER e r :: tr). now apply KSto.
   Qed.
 
+  (* the same with the trace of [run_tr] *)
+  Lemma run_tr_krun {A} (p : prog A) :
+    forall (s s' : rstate kstate) a tr,
+      dead s = false -> run_tr kstate (kube_handle rn ns) dead_resp nofault p s = (s', a, tr) ->
+      krun p (ks s) (ks s') a tr /\ dead s' = false.
+  Proof.
+    induction p as [x|e kk IH]; intros s s' a tr Hd H; simpl in H.
+    - inversion H; subst. split; auto. constructor.
+    - destruct (step kstate (kube_handle rn ns) dead_resp nofault e s) as [s1 r] eqn:Es.
+      destruct (run_tr kstate (kube_handle rn ns) dead_resp nofault (kk r) s1) as [[s2 a2] t2] eqn:Er.
+      inversion H; subst. clear H.
+      unfold step in Es. simpl crash in Es. simpl wfail in Es. unfold eq_opt in Es.
+      rewrite andb_false_r in Es. rewrite Hd in Es.
+      destruct (is_cluster_call e) eqn:Hc.
+      + destruct (kube_handle rn ns e (ks s)) as [[k1 r1] evs] eqn:Ek. inversion Es; subst. clear Es.
+        eapply IH in Er; [|reflexivity]. destruct Er as [Hk Hd']. simpl in Hk. split; auto.
+        assert (E : r = kresp_of e (ks s)) by (unfold kresp_of; now rewrite Ek).
+        rewrite E. apply KClu; auto. rewrite <- E.
+        unfold kstate_of. rewrite Ek. exact Hk.
+      + destruct (is_storage_write e) eqn:Hw.
+        * destruct (storage_apply dead_resp e (led s)) as [[l1 r1] evs] eqn:Ea. inversion Es; subst. clear Es.
+          eapply IH in Er; [|reflexivity]. destruct Er as [Hk Hd']. simpl in Hk. split; auto. now apply KSto.
+        * destruct (storage_apply dead_resp e (led s)) as [[l1 r1] evs] eqn:Ea. inversion Es; subst. clear Es.
+          eapply IH in Er; [|exact Hd]. destruct Er as [Hk Hd']. split; auto. now apply KSto.
+  Qed.
+
   (* ---- one-shot faults are only ever consumed ---- *)
   Definition fault_le (k' k : kstate) : Prop := kfault k' = kfault k \/ kfault k' = None.
 
